@@ -347,7 +347,7 @@ fn c15_for<S: AnyScan>(cfg: &Cfg, rep: &mut Report, timeouts: &[u64]) {
     for &t in timeouts {
         for (pi, &(a, b)) in pairs.iter().enumerate() {
             let alpha = S::alphabet(&[a, b], rich, &vp[pi % vp.len()]);
-            let (st, _) = explore(cfg, Iso::<S>::new(t, [a, b]), &alpha, 1_500_000, rep, false);
+            let (st, _) = explore(cfg, Iso::<S>::new(t, [a, b]), &alpha, if rich { 400_000 } else { 25_000 }, rep, false);
             tot_states += st.states;
             tot_trans += st.transitions;
             all_fix &= st.fixpoint;
@@ -371,7 +371,7 @@ fn c15_for<S: AnyScan>(cfg: &Cfg, rep: &mut Report, timeouts: &[u64]) {
                     alpha.push(e);
                 }
             }
-            let (st, _) = explore(cfg, Iso::<S>::new(t, [a, b]), &alpha, 1_500_000, rep, false);
+            let (st, _) = explore(cfg, Iso::<S>::new(t, [a, b]), &alpha, 60_000, rep, false);
             tot_states += st.states;
             tot_trans += st.transitions;
             all_fix &= st.fixpoint;
@@ -580,7 +580,7 @@ fn c16_for<S: AnyScan>(cfg: &Cfg, rep: &mut Report, timeouts: &[u64]) {
             chan,
             msgs: std::sync::Arc::new(msgs),
         };
-        let (st, _) = explore(cfg, init, &alpha, 2_000_000, rep, false);
+        let (st, _) = explore(cfg, init, &alpha, 60_000, rep, false);
         rep.states += st.states;
         rep.transitions += st.transitions;
         rep.distinct_nontrivial += st.states;
@@ -952,7 +952,7 @@ fn c17_for<S: AnyScan>(cfg: &Cfg, rep: &mut Report, timeouts: &[u64]) {
             chans,
             seed: cfg.seed,
         };
-        let (st, _) = explore(cfg, init, &alpha, 1_500_000, rep, false);
+        let (st, _) = explore(cfg, init, &alpha, 80_000, rep, false);
         rep.states += st.states;
         rep.transitions += st.transitions;
         rep.distinct_nontrivial += st.states;
